@@ -426,7 +426,7 @@ def is_secop_port(port):
         c.close()
 
 
-def run_server_restart(w, r, rng):
+def run_server_restart(w, r, rng, bare=False):
     """the real frappy.server.Server with a main and a secondary tcp interface and its own discovery responder: after a
     restart in which the secondary interface can not be bound again (somebody else took the port), every answer to a
     discovery request still carries a port the node really listens on"""
@@ -442,7 +442,9 @@ def run_server_restart(w, r, rng):
     port1, port2 = [s_.getsockname()[1] for s_ in socks]
     for s_ in socks:
         s_.close()
-    (tmp / 'c19node_cfg.py').write_text(f"Node('c19.restart', 'restarting node', 'tcp://{port1}', secondary=['tcp://{port2}'])\n"
+    # the main interface may be spelled as a bare port number (as after 'frappy-server -p <port>')
+    spelled = str(port1) if bare else f'tcp://{port1}'
+    (tmp / 'c19node_cfg.py').write_text(f"Node('c19.restart', 'restarting node', '{spelled}', secondary=['tcp://{port2}'])\n"
                                         "Mod('foo', 'frappy.modules.Readable', 'a readable', value=5)\n")
     gc = frappy.lib.generalConfig
     saved = gc._config
@@ -490,7 +492,8 @@ def run_server_restart(w, r, rng):
     srv = Srv('c19node', log)
     th = threading.Thread(target=srv.run, daemon=True)
     th.start()
-    case = {'sub': 'server-restart', 'ports': [port1, port2]}
+    case = {'sub': 'server-restart', 'ports': [port1, port2], 'main_interface_spelled': spelled}
+    r.count('server_runs_with_a_bare_port_interface' if spelled.isdigit() else 'server_runs_with_an_uri_interface')
     try:
         if not wait_for(lambda: getattr(srv, 'discovery', None) is not None and is_secop_port(port1) and is_secop_port(port2), 30):
             r.inconclusive.append('server-restart phase: the node did not come up with both interfaces')
@@ -513,6 +516,9 @@ def run_server_restart(w, r, rng):
         ports = ask()
         r.count('server_discovery_answers_checked', len(ports))
         bad = [p_ for p_ in ports if not is_secop_port(p_)]
+        if not bad and ports and port1 not in ports:
+            r.violation('C19/server/listening-port-not-announced', f'the node listens on {port1} (interface given as {spelled!r}) and {port2}; discovery answers carry {ports}', case)
+            return
         if bad or not ports:
             r.violation('C19/server/announced-port-not-listening/fresh-node', f'answers carry {ports}, not listening: {bad}', case)
             return
@@ -564,8 +570,8 @@ def run_shard(shard):
     w.run_early_shutdown(rng, 8)
     if shard['idx'] == 0:
         w.run_tcp()
-    if shard['idx'] == 1:
-        run_server_restart(w, r, rng)
+    if shard['idx'] in (1, 2):
+        run_server_restart(w, r, rng, bare=shard['idx'] == 2)
     return r.result()
 
 
